@@ -23,7 +23,7 @@ func (prop) ID() string { return "C03" }
 
 func nGen(tier string) int {
 	if tier == "thorough" {
-		return 10000
+		return 4000
 	}
 	return 300
 }
@@ -33,7 +33,7 @@ func (prop) Cases(tier string) int { return len(corpus.Files()) + nGen(tier) }
 func (prop) Info() fw.Info {
 	return fw.Info{
 		Level: "exploration",
-		Rule: "cases 0..N-1 = the N .sysl files of the repository, each compiled from an in-memory copy of its directory tree, original vs transformed (all .sysl files of the tree transformed alike); remaining cases = generated specifications (as C02). Transform compositions: uniform re-indent x2/x3/x4, tabs for 4-column units (tabs first, spaces first or interleaved), blank lines before every line or a PRNG subset, whole-line comments (column 0 / at the next line's indentation / empty '#') before declaration lines; quick = 7 fixed + 2 random compositions per corpus file and 4 random per generated spec; thorough = 40 random / 6 random. Oracle: proto.Equal after clearing every source_context(s); acceptance must agree. Non-trivial: the original compiles and has >= 3 indentation levels; distinct by text hash.",
+		Rule: "cases 0..N-1 = the N .sysl files of the repository, each compiled from an in-memory copy of its directory tree, original vs transformed (all .sysl files of the tree transformed alike); remaining cases = generated specifications (as C02). Transform compositions: uniform re-indent x2/x3/x4, tabs for 4-column units (tabs first, spaces first or interleaved), blank lines before every line or a PRNG subset, whole-line comments (column 0 / at the next line's indentation / empty '#') before declaration lines; quick = 7 fixed + 2 random compositions per corpus file and 4 random per generated spec; thorough = 24 random / 6 random. Oracle: proto.Equal after clearing every source_context(s); acceptance must agree. Non-trivial: the original compiles and has >= 3 indentation levels; distinct by text hash.",
 		Assumptions: []string{"comment insertion points are declaration lines (for files containing views: application and member level only, since expression bodies are not declarations)", "a tab counts as 4 columns (lang-spec)"},
 		CountFloors: map[string]int{"pairs_equal": 500, "compositions": 500},
 		CaseTimeout: 180,
@@ -123,7 +123,7 @@ func (prop) Run(ctx *fw.Ctx, i int) fw.Result {
 		tree, file, ok = corpus.Locate(files[i])
 		_ = ok
 		if ctx.Thorough() {
-			nRandom = 40
+			nRandom = 24
 		}
 	} else {
 		spec := gen.Build(r.Fork(), gen.DefaultOpts(r, ctx.Thorough()))
